@@ -355,36 +355,36 @@ UW_DIR6 = [("memcmp", r".", 12),
            ("FatVolume::write_new_directory_entry", r".", 3)]
 UW_OPEN6 = UW_ALLOC + UW_TRUNC + UW_DIR6
 _od = "open_file_in_dir result == documented mode matrix for this (target, mode); refused calls write nothing and leave the tables unchanged; truncate empties and frees the tail; append starts at the end; created file empty in the first free slot; fresh handle"
-H("C07", "vk_fsop", "c07_open_a_ro", desc=_od, bounds="target A, mode ro", unwindset=UW_OPEN6, timeout=1500, cost=3, mem_gb=20)
-H("C07", "vk_fsop", "c07_open_a_append", desc=_od, bounds="target A, mode append", unwindset=UW_OPEN6, timeout=1500, cost=3, mem_gb=20)
+H("C07", "vk_fsop", "c07_open_a_ro", desc=_od, bounds="target A, mode ro", unwindset=UW_OPEN6, timeout=1500, cost=3, mem_gb=24, mem_est=16)
+H("C07", "vk_fsop", "c07_open_a_append", desc=_od, bounds="target A, mode append", unwindset=UW_OPEN6, timeout=1500, cost=3, mem_gb=24, mem_est=16)
 H("C07", "vk_fsop", "c07_open_a_trunc", tier="thorough", desc=_od, bounds="target A, mode trunc", unwindset=UW_OPEN6, timeout=3600, cost=3, mem_gb=40)
-H("C07", "vk_fsop", "c07_open_a_create", desc=_od, bounds="target A, mode create", unwindset=UW_OPEN6, timeout=1500, cost=3, mem_gb=20)
+H("C07", "vk_fsop", "c07_open_a_create", desc=_od, bounds="target A, mode create", unwindset=UW_OPEN6, timeout=1500, cost=3, mem_gb=24, mem_est=16)
 H("C07", "vk_fsop", "c07_open_a_create_or_trunc", tier="thorough", desc=_od, bounds="target A, mode create_or_trunc", unwindset=UW_OPEN6, timeout=3600, cost=3, mem_gb=40)
 H("C07", "vk_fsop", "c07_open_a_create_or_append", tier="thorough", mem_est=30, desc=_od, bounds="target A, mode create_or_append", unwindset=UW_OPEN6, timeout=1500, cost=3, mem_gb=44)
-H("C07", "vk_fsop", "c07_open_r_ro", desc=_od, bounds="target R, mode ro", unwindset=UW_OPEN6, timeout=1500, cost=3, mem_gb=20)
-H("C07", "vk_fsop", "c07_open_r_append", desc=_od, bounds="target R, mode append", unwindset=UW_OPEN6, timeout=1500, cost=3, mem_gb=20)
-H("C07", "vk_fsop", "c07_open_r_trunc", tier="thorough", desc=_od, bounds="target R, mode trunc", unwindset=UW_OPEN6, timeout=1500, cost=3, mem_gb=20)
-H("C07", "vk_fsop", "c07_open_r_create", tier="thorough", desc=_od, bounds="target R, mode create", unwindset=UW_OPEN6, timeout=1500, cost=3, mem_gb=20)
+H("C07", "vk_fsop", "c07_open_r_ro", desc=_od, bounds="target R, mode ro", unwindset=UW_OPEN6, timeout=1500, cost=3, mem_gb=24, mem_est=16)
+H("C07", "vk_fsop", "c07_open_r_append", desc=_od, bounds="target R, mode append", unwindset=UW_OPEN6, timeout=1500, cost=3, mem_gb=24, mem_est=16)
+H("C07", "vk_fsop", "c07_open_r_trunc", tier="thorough", desc=_od, bounds="target R, mode trunc", unwindset=UW_OPEN6, timeout=1500, cost=3, mem_gb=24, mem_est=16)
+H("C07", "vk_fsop", "c07_open_r_create", tier="thorough", desc=_od, bounds="target R, mode create", unwindset=UW_OPEN6, timeout=1500, cost=3, mem_gb=24, mem_est=16)
 H("C07", "vk_fsop", "c07_open_r_create_or_trunc", tier="thorough", mem_est=30, desc=_od, bounds="target R, mode create_or_trunc", unwindset=UW_OPEN6, timeout=1500, cost=3, mem_gb=44)
 H("C07", "vk_fsop", "c07_open_r_create_or_append", tier="thorough", mem_est=30, desc=_od, bounds="target R, mode create_or_append", unwindset=UW_OPEN6, timeout=1500, cost=3, mem_gb=44)
 _odc = "read-only-attribute file opened in a writing mode: Err(ReadOnly), nothing written, tables unchanged, and neither truncate_cluster_chain nor write_new_directory_entry is reached (both replaced by counting stubs so the query stays small when the refusal is missing)"
-H("C07", "vk_fsop", "c07_open_r_trunc_cut", desc=_odc, bounds="target R, mode trunc; truncation and entry creation stubbed", kani_args=["-Z", "stubbing"], unwindset=UW_OPEN6, timeout=1500, cost=3, mem_gb=20)
-H("C07", "vk_fsop", "c07_open_r_create_or_trunc_cut", desc=_odc, bounds="target R, mode create_or_trunc; truncation and entry creation stubbed", kani_args=["-Z", "stubbing"], unwindset=UW_OPEN6, timeout=1500, cost=3, mem_gb=20)
-H("C07", "vk_fsop", "c07_open_r_create_or_append_cut", desc=_odc, bounds="target R, mode create_or_append; truncation and entry creation stubbed", kani_args=["-Z", "stubbing"], unwindset=UW_OPEN6, timeout=1500, cost=3, mem_gb=20)
-H("C07", "vk_fsop", "c07_open_d_ro", desc=_od, bounds="target D, mode ro", unwindset=UW_OPEN6, timeout=1500, cost=3, mem_gb=20)
-H("C07", "vk_fsop", "c07_open_d_append", tier="thorough", desc=_od, bounds="target D, mode append", unwindset=UW_OPEN6, timeout=1500, cost=3, mem_gb=20)
-H("C07", "vk_fsop", "c07_open_d_trunc", tier="thorough", desc=_od, bounds="target D, mode trunc", unwindset=UW_OPEN6, timeout=1500, cost=3, mem_gb=20)
-H("C07", "vk_fsop", "c07_open_d_create", tier="thorough", desc=_od, bounds="target D, mode create", unwindset=UW_OPEN6, timeout=1500, cost=3, mem_gb=20)
-H("C07", "vk_fsop", "c07_open_d_create_or_trunc", tier="thorough", desc=_od, bounds="target D, mode create_or_trunc", unwindset=UW_OPEN6, timeout=1500, cost=3, mem_gb=20)
-H("C07", "vk_fsop", "c07_open_d_create_or_append", tier="thorough", desc=_od, bounds="target D, mode create_or_append", unwindset=UW_OPEN6, timeout=1500, cost=3, mem_gb=20)
-H("C07", "vk_fsop", "c07_open_o_ro", tier="thorough", desc=_od, bounds="target O, mode ro", unwindset=UW_OPEN6, timeout=1500, cost=3, mem_gb=20)
-H("C07", "vk_fsop", "c07_open_o_append", desc=_od, bounds="target O, mode append", unwindset=UW_OPEN6, timeout=1500, cost=3, mem_gb=20)
-H("C07", "vk_fsop", "c07_open_o_trunc", tier="thorough", desc=_od, bounds="target O, mode trunc", unwindset=UW_OPEN6, timeout=1500, cost=3, mem_gb=20)
-H("C07", "vk_fsop", "c07_open_o_create", tier="thorough", desc=_od, bounds="target O, mode create", unwindset=UW_OPEN6, timeout=1500, cost=3, mem_gb=20)
-H("C07", "vk_fsop", "c07_open_o_create_or_trunc", tier="thorough", desc=_od, bounds="target O, mode create_or_trunc", unwindset=UW_OPEN6, timeout=1500, cost=3, mem_gb=20)
-H("C07", "vk_fsop", "c07_open_o_create_or_append", tier="thorough", desc=_od, bounds="target O, mode create_or_append", unwindset=UW_OPEN6, timeout=1500, cost=3, mem_gb=20)
-H("C07", "vk_fsop", "c07_open_m_ro", desc=_od, bounds="target M, mode ro", unwindset=UW_OPEN6, timeout=1500, cost=3, mem_gb=20)
-H("C07", "vk_fsop", "c07_open_m_append", tier="thorough", desc=_od, bounds="target M, mode append", unwindset=UW_OPEN6, timeout=1500, cost=3, mem_gb=20)
+H("C07", "vk_fsop", "c07_open_r_trunc_cut", tier="thorough", desc=_odc, bounds="target R, mode trunc; truncation and entry creation stubbed", kani_args=["-Z", "stubbing"], unwindset=UW_OPEN6, timeout=1500, cost=3, mem_gb=24, mem_est=16)
+H("C07", "vk_fsop", "c07_open_r_create_or_trunc_cut", desc=_odc, bounds="target R, mode create_or_trunc; truncation and entry creation stubbed", kani_args=["-Z", "stubbing"], unwindset=UW_OPEN6, timeout=1500, cost=3, mem_gb=24, mem_est=16)
+H("C07", "vk_fsop", "c07_open_r_create_or_append_cut", desc=_odc, bounds="target R, mode create_or_append; truncation and entry creation stubbed", kani_args=["-Z", "stubbing"], unwindset=UW_OPEN6, timeout=1500, cost=3, mem_gb=24, mem_est=16)
+H("C07", "vk_fsop", "c07_open_d_ro", desc=_od, bounds="target D, mode ro", unwindset=UW_OPEN6, timeout=1500, cost=3, mem_gb=24, mem_est=16)
+H("C07", "vk_fsop", "c07_open_d_append", tier="thorough", desc=_od, bounds="target D, mode append", unwindset=UW_OPEN6, timeout=1500, cost=3, mem_gb=24, mem_est=16)
+H("C07", "vk_fsop", "c07_open_d_trunc", tier="thorough", desc=_od, bounds="target D, mode trunc", unwindset=UW_OPEN6, timeout=1500, cost=3, mem_gb=24, mem_est=16)
+H("C07", "vk_fsop", "c07_open_d_create", tier="thorough", desc=_od, bounds="target D, mode create", unwindset=UW_OPEN6, timeout=1500, cost=3, mem_gb=24, mem_est=16)
+H("C07", "vk_fsop", "c07_open_d_create_or_trunc", tier="thorough", desc=_od, bounds="target D, mode create_or_trunc", unwindset=UW_OPEN6, timeout=1500, cost=3, mem_gb=24, mem_est=16)
+H("C07", "vk_fsop", "c07_open_d_create_or_append", tier="thorough", desc=_od, bounds="target D, mode create_or_append", unwindset=UW_OPEN6, timeout=1500, cost=3, mem_gb=24, mem_est=16)
+H("C07", "vk_fsop", "c07_open_o_ro", tier="thorough", desc=_od, bounds="target O, mode ro", unwindset=UW_OPEN6, timeout=1500, cost=3, mem_gb=24, mem_est=16)
+H("C07", "vk_fsop", "c07_open_o_append", desc=_od, bounds="target O, mode append", unwindset=UW_OPEN6, timeout=1500, cost=3, mem_gb=24, mem_est=16)
+H("C07", "vk_fsop", "c07_open_o_trunc", tier="thorough", desc=_od, bounds="target O, mode trunc", unwindset=UW_OPEN6, timeout=1500, cost=3, mem_gb=24, mem_est=16)
+H("C07", "vk_fsop", "c07_open_o_create", tier="thorough", desc=_od, bounds="target O, mode create", unwindset=UW_OPEN6, timeout=1500, cost=3, mem_gb=24, mem_est=16)
+H("C07", "vk_fsop", "c07_open_o_create_or_trunc", tier="thorough", desc=_od, bounds="target O, mode create_or_trunc", unwindset=UW_OPEN6, timeout=1500, cost=3, mem_gb=24, mem_est=16)
+H("C07", "vk_fsop", "c07_open_o_create_or_append", tier="thorough", desc=_od, bounds="target O, mode create_or_append", unwindset=UW_OPEN6, timeout=1500, cost=3, mem_gb=24, mem_est=16)
+H("C07", "vk_fsop", "c07_open_m_ro", desc=_od, bounds="target M, mode ro", unwindset=UW_OPEN6, timeout=1500, cost=3, mem_gb=24, mem_est=16)
+H("C07", "vk_fsop", "c07_open_m_append", tier="thorough", desc=_od, bounds="target M, mode append", unwindset=UW_OPEN6, timeout=1500, cost=3, mem_gb=24, mem_est=16)
 H("C07", "vk_fsop", "c07_open_m_trunc", tier="thorough", desc=_od, bounds="target M, mode trunc", unwindset=UW_OPEN6, timeout=3600, cost=3, mem_gb=40)
 H("C07", "vk_fsop", "c07_open_m_create", tier="thorough", desc=_od, bounds="target M, mode create", unwindset=UW_OPEN6, timeout=3600, cost=3, mem_gb=40)
 H("C07", "vk_fsop", "c07_open_m_create_or_trunc", tier="thorough", desc=_od, bounds="target M, mode create_or_trunc", unwindset=UW_OPEN6, timeout=3600, cost=3, mem_gb=40)
@@ -468,6 +468,7 @@ H("C09", "vk_fat", "c10_alloc_update_order", desc="same harness: a flushed file'
 
 for pr in ("C13", "C14"):
     H(pr, "vk_sd", "c13_failed_init_at_cmd58_stays_uninit", desc="identification failing at CMD58 (any non-zero R1): error reported, card stays marked uninitialised", bounds="SDHC, CRC on/off symbolic, R1 error bits symbolic", unwindset=UW_SD, timeout=900, cost=2)
+H("C13", "vk_sd", "c13_read2_crc_mismatch_first_block_fixed_data", desc="2-block read, CRC on: mismatch in the first block fails the call", bounds="card memory concrete (model default), any non-zero 16-bit CRC corruption of the first block", unwindset=UW_SD, timeout=1800, cost=3, mem_gb=20)
 H("C13", "vk_sd", "c13_read2_crc_mismatch_first_block", tier="thorough", desc="2-block read, CRC on: mismatch in the first block fails the call", bounds="card memory symbolic, any non-zero CRC corruption", unwindset=UW_SD, timeout=3600, cost=5, mem_gb=30)
 for n in ["c14_acmd_waits_for_busy", "c14_command_waits_for_busy"]:
     H("C14", "vk_sd", n, desc="a command (and the CMD55 prefix of an application command) issued while the card is still busy waits for the busy period to end", bounds="busy 1-2 bytes", unwindset=UW_SD, timeout=900, cost=2)
